@@ -53,8 +53,8 @@ Proof. exact h2_classification. Qed.
 
 (* the hypotheses are satisfiable: two interleaved streams *)
 Example C04_example :
-  let h1 := FHeaders 1 [(s_method, bs [71;69;84])] false in
-  let d1 := FData 1 (bs [1;2;3]) true in
-  let h3 := FHeaders 3 [(s_method, bs [71;69;84])] true in
-  exists m' os, run_asm [] [h1; FOther 0; h3; d1] = Ok (m', os) /\ length os = 2%nat.
+  let h1 := FHeaders 1%N [(s_method, bs [71;69;84]%N)] false in
+  let d1 := FData 1%N (bs [1;2;3]%N) true in
+  let h3 := FHeaders 3%N [(s_method, bs [71;69;84]%N)] true in
+  exists m' os, run_asm [] [h1; FOther 0%N; h3; d1] = Ok (m', os) /\ length os = 2%nat.
 Proof. vm_compute. eauto. Qed.
